@@ -59,17 +59,35 @@ pass-through `fwd`):
   EQUALITIES while the task's output queue has neither failed nor been stopped: a producer gives up the value in its
   hand only when `enqueue_done` holds, which — without failure / stop request — cannot happen while a producer is
   inside `put` (producer counting of `Queue.Live`).
-  Missing for the full statement: the composition of the links into ONE multiset statement about the caller's values
-  (it needs both queues, the cache and every hand EMPTY at the end of a run without failure / early stop, and
-  `pulled = all of the input` for every first-level task).
+  (Round 11 composes the links: see below.)
+
+Round 11 (package C13D3; `Lemmas/Piter2Sig/Incl/EndStep/Anat/Close/Close2/Multiset.lean`): the links COMPOSED —
+
+* `C13_two_inclusion` — EVERY run (failures, early stop), every reachable configuration: as multisets
+  delivered ⊆ `iterator_fn` over what the second-level tasks pulled, pulled ⊆ values of all inputs, hence
+  delivered ⊆ `(all input values).flatMap F`: nothing duplicated, nothing invented, at either level;
+* `C13_two_multiset` — runs WITHOUT failure and WITHOUT early stop: in every reachable final configuration whose two
+  queues have no recorded exception / stop request and whose caller was not cut by `num_steps`, the delivered values are
+  a PERMUTATION of `(all input values).flatMap F`, and both queues, the shared cache of `DequeueIterator(Q1)` and both
+  `lost` lists are empty; `C13_two_multiset_quiescent` — the same for every configuration WITHOUT ENABLED STEP under
+  `PoolOK` (through `C13_two_no_deadlock`).  New invariants: `End1` (input queue: `exhausted ⇒ empty`, no `get_batch`
+  drops anything, once a task has seen the end of `Q1` the cache is empty and later calls dequeue nothing, a first-level
+  task past `_stop_enqueue` has read ALL of its input) and `End2` (output queue: the same + a second-level task past
+  `_stop_enqueue` has seen the end of `Q1` and holds no pending output), each conditional on the queue being neither
+  failed nor stopped, proved over the inversion lemmas `step_shape` of `Piter2Anat.lean`.
 
 NOT proved (full statements, kept visible):
-* conservation across both levels: `theorem C13_two_multiset : Reachable F c0 c → c.allDone → delivered outputs of the
-  caller ~ (all input values).flatMap F` (no failure, no early stop) and `… → the caller's StopIteration carries every
-  input generator's return value` (once for a generator `iterator_fn` per task, P times for a pass-through);
+* the return values: `theorem C13_two_returns : Reachable F c0 c → c.allDone → (clean run) → the caller's
+  iterOutcome = some (.stop rets) ∧ rets ~ gens` (generator `iterator_fn`) `/ rets = (replicate P Q1.returned).flatten
+  ∧ Q1.returned ~ inputs.flatMap (ret :: more)` (pass-through: every second-level task forwards
+  `StopIteration(*input_queue.returned)`, so every input return value arrives P times — what the code does);
+* the failure side: `theorem C13_two_failure_surfaces_once : Reachable F c0 c → c.allDone → c.s2.exc.isSome →
+  t0.early = false → ∃ e, t0.iterOutcome = some (.err e)` (the inclusion half of that statement IS `C13_two_inclusion`);
+* the hypotheses of `C13_two_multiset` are on the FINAL configuration (no exception / stop request recorded, `early = false`),
+  not derived from the inputs (`no Item.fail`, `F` total on the values, `num_steps = none`);
 * termination: `theorem C13_two_terminates : ∃ bound, every execution from c0 has at most bound steps` (a variant over
   both queues' `Phi` + per-task cost).
-  Both are covered by exhaustive exploration of small configurations + schedule replay on the real code + the oracle.
+  All covered by exhaustive exploration of small configurations + schedule replay on the real code + the oracle.
 -/
 namespace MlModel.C13
 open MlModel.Piter2
